@@ -74,11 +74,15 @@ func TestC02(t *testing.T) {
 			Violation(rt, "C02/old-build-touched-before-commit", "right before Commit: %s (patch %s)\nops %v", ar.Invariant, desc, pair.Ops)
 			return
 		}
-		dirfile := len(pair.DirFile) > 0
+		shapes := pair.InPlaceShapes()
 		if ar.Err != nil {
 			class := "C02/apply-error"
-			if dirfile && ar.Stage == "commit" && dirFileError(ar.Err, pair.DirFile) {
-				class = "C02/dirfile-kind-change-commit"
+			if ar.Stage == "commit" {
+				for c, paths := range shapes {
+					if mentionsAny(ar.Err.Error(), paths) {
+						class = c
+					}
+				}
 			}
 			Violation(rt, class, "in-place apply failed at %s: %+v (patch %s, maporder %d, broken rename %v)\nops %v", ar.Stage, trimErr(ar.Err), desc, spec.MapOrder, broken, pair.Ops)
 			return
@@ -86,12 +90,13 @@ func TestC02(t *testing.T) {
 		got := MustSnapshot(inDir).Tree
 		if d := pair.New.Diff(got); d != "" {
 			class := "C02/wrong-output"
-			if dirfile && mentionsAny(d, pair.DirFile) {
-				class = "C02/dirfile-kind-change-output"
+			if paths, ok := shapes["C02/kindchange-destroys-transposition-source"]; ok && onlyMentions(pair.New, got, paths) {
+				class = "C02/kindchange-destroys-transposition-source"
 			}
 			Violation(rt, class, "directory after Commit differs from the new build: %s (patch %s, maporder %d, broken rename %v)\nops %v", d, desc, spec.MapOrder, broken, pair.Ops)
 			return
 		}
+		dirfile := len(pair.DirFile) > 0
 		for _, l := range s.Log {
 			if strings.HasPrefix(l, "perm ") {
 				Ev.Probe("map_order_decided")
@@ -129,4 +134,31 @@ func mentionsAny(s string, paths []string) bool {
 		}
 	}
 	return false
+}
+
+// onlyMentions reports whether every path at which a and b differ is one of paths (or lies
+// under one of them).
+func onlyMentions(a, b Tree, paths []string) bool {
+	in := func(q string) bool {
+		for _, p := range paths {
+			if q == p || Under(q, p) {
+				return true
+			}
+		}
+		return false
+	}
+	for q, ea := range a {
+		eb, ok := b[q]
+		if !ok || ea.Kind != eb.Kind || string(ea.Data) != string(eb.Data) || ea.Dest != eb.Dest {
+			if !in(q) {
+				return false
+			}
+		}
+	}
+	for q := range b {
+		if _, ok := a[q]; !ok && !in(q) {
+			return false
+		}
+	}
+	return true
 }
